@@ -58,7 +58,8 @@ class Stepper:
     """
 
     def __init__(self, interrupt_at=None, max_steps=None, max_depth=None,
-                 max_msg=None, prefix=XL_DIR, no_interrupt_in=()):
+                 max_msg=None, prefix=XL_DIR, no_interrupt_in=(),
+                 extra_files=()):
         self.interrupt_at = interrupt_at
         self.max_steps = max_steps
         self.max_depth = max_depth
@@ -68,6 +69,9 @@ class Stepper:
         # a cancellation landing *inside* clean-up cannot be handled by any
         # Python program, so it is not a fault the library can be blamed for
         self.no_interrupt_in = frozenset(no_interrupt_in)
+        # further source files whose lines count as steps (e.g. copy.py
+        # while an extraction deep-copies cells)
+        self.extra_files = frozenset(extra_files)
         self.steps = 0
         self.depth = 0
         self.depth_seen = 0
@@ -78,7 +82,8 @@ class Stepper:
 
     # -- trace functions ----------------------------------------------------
     def _global(self, frame, event, arg):
-        if not frame.f_code.co_filename.startswith(self.prefix):
+        fn = frame.f_code.co_filename
+        if not fn.startswith(self.prefix) and fn not in self.extra_files:
             return None
         self.depth += 1
         if self.depth > self.depth_seen:
